@@ -63,6 +63,10 @@ func (x *explorer) do(cs Case) {
 		return
 	}
 	x.c.Outcome(r.Outcome)
+	if r.DriveName != "" {
+		x.c.Count("obs_drive_prefixed_name_exposed", 1)
+		x.c.Note("observation (not judged: relative on Linux): %s exposes the drive-prefixed file name %q, e.g. for %v", cs.EP, r.DriveName, cs.Entries)
+	}
 	x.floors(cs, r)
 	done := map[string]bool{}
 	for _, v := range r.Viols {
